@@ -64,6 +64,13 @@ func (r Rounder) ShouldAddOne(result *BigInt, neg bool, half int) bool {
 // Round sets d to rounded x.
 func (r Rounder) Round(c *Context, d, x *Decimal, disableIfPrecisionZero bool) Condition {
 	d.Set(x)
+	if x.Form != Finite {
+		// Infinities and NaNs are not rounded. Their Coeff and Exponent
+		// fields carry no value (an infinity produced by an overflow keeps
+		// the coefficient and exponent of the overflowed result) and must
+		// not be interpreted.
+		return 0
+	}
 	nd := x.NumDigits()
 	xs := x.Sign()
 	var res Condition
